@@ -20,7 +20,7 @@ THEOREMS = ["Poor.Props.C13.hidden_involutive", "Poor.Props.C13.C13_roundtrip", 
             "Poor.Props.C13.C13_reject_partial", "Poor.Props.C13.destroy_destroyed",
             "Poor.Props.C13.write_keeps_destroyed", "Poor.Props.C13.C13_destroyed_expired", "Poor.Props.C13.C13_attrs",
             "Poor.Base64.decode_encode", "Poor.Props.C13.C13_roundtrip_b64", "Poor.Props.C13.C13_value_nonempty",
-            "Poor.Props.C13.C13_roundtrip_json", "Poor.Props.JsonCodec.loadBytes_dumpBytes"]
+            "Poor.Props.C13.C13_roundtrip_json", "Poor.Props.JsonCodec.loadBytes_dumpBytes", "Poor.Props.C13.C13_header_current"]
 TRUSTED_BASE = ["model Poor.Session hand-written from session.py:27-55, 238-312",
                 "json and bz2/zlib are parameters of the model with round-trip hypotheses (sampled here against the real modules); "
                 "base64 is modelled (Poor.Base64: the encoder and the non-strict decoder loop of binascii) and its round trip proved",
@@ -70,6 +70,22 @@ def generate(rng, tier):
         cases.append("C13 jb " + JC.tok_text(text))
     for _ in range(300 if tier == "thorough" else 60):
         cases.append("C13 jb " + hx(bytes(rng.getrandbits(8) for _ in range(rng.randrange(1, 12)))))
+    # the life of a session object (no compression: every layer of the value is modelled): assignments between writes and
+    # header() calls - the cookie always carries the current data
+    for _ in range(1500 if tier == "thorough" else 250):
+        secret = rng.choice(["s", "secret ž", "x" * 128, b"\x00\xff", b"k" * 77, "🔑", b"\x01" * 65, "k" * 64])
+        ops = []
+        for _ in range(rng.randrange(1, 7)):
+            r = rng.random()
+            if r < 0.4:
+                v = JC.rand_value(rng, 2, "dict")
+                if JC.hasfloat(v) or any(JC.adjacent_pair(s) for s in JC.strings_of(v)):
+                    continue
+                ops.append("s" + JC.canon(v))
+            else:
+                ops.append(rng.choice(["w", "h", "h", "d"]))
+        ops.append("h")
+        cases.append("C13 cookie %s %s" % (tok_secret(secret), " ".join(ops)))
     n = 2000 if tier == "thorough" else 300
     for _ in range(n):
         key = hashlib.sha512(bytes(rng.getrandbits(8) for _ in range(rng.randrange(1, 20)))).digest()
@@ -134,6 +150,11 @@ def to_model(case):
     t = case.split()
     if t[1] == "jb":
         return ["JS load " + t[2]]
+    if t[1] == "cookie":
+        # the model is given the key stream `hidden` derives from the secret: sha512 of its (UTF-8) bytes
+        secret = untok_secret(t[2])
+        raw = secret if isinstance(secret, bytes) else secret.encode("utf-8")
+        return ["C13 cookie %s %s" % (hashlib.sha512(raw).hexdigest(), " ".join(t[3:]))]
     return [] if t[1] == "rt" else [case]
 
 
@@ -206,6 +227,27 @@ def observe(case):
             return " | ".join(run_attrs(case)) or "-"
         if t[1] == "b64e":
             return hx(base64.b64encode(unhx(t[2])).decode())
+        if t[1] == "cookie":
+            # `cookie <secret> <ops>`: the life of one session object without compression; the cookie value
+            # after every write() / header()
+            from poorwsgi.session import PoorSession
+            sess = PoorSession(untok_secret(t[2]), compress=None)
+            outs = []
+            for op in t[3:]:
+                if op == "w":
+                    outs.append(sess.write())
+                elif op == "h":
+                    sess.header()
+                    outs.append(sess.cookie["SESSID"].value)
+                elif op == "d":
+                    sess.destroy()
+                else:
+                    v = JC.from_canon(op[1:])
+                    if isinstance(sess.data, dict) and isinstance(v, dict) and op.startswith("u"):
+                        sess.data.update(v)
+                    else:
+                        sess.data = v
+            return "|".join(outs) if outs else "-"
         if t[1] == "jb":
             # `loads(bytearray)` as PoorSession.load calls it; the model knows the UTF-8 path only
             import json
@@ -258,6 +300,24 @@ def oracle(case):
     t = case.split()
     if t[1] == "jb":
         return []       # a tie of the JSON model to CPython's json, not a statement of the property
+    if t[1] == "cookie":
+        # the last cookie of the history restores the data last assigned
+        from poorwsgi.session import PoorSession
+        want = {}
+        for op in t[3:]:
+            if op[0] == "s":
+                want = JC.from_canon(op[1:])
+        last = observe(case).split("|")[-1]
+        s2 = PoorSession(untok_secret(t[2]), compress=None)
+        c = SimpleCookie()
+        c["SESSID"] = last
+        try:
+            s2.load(c)
+        except Exception as err:
+            return [Violation("c13-life-raises", case, "loading the last cookie of the history raised %r" % (err,))]
+        if s2.data != want:
+            return [Violation("c13-life", case, "the last cookie restores %r, the session held %r" % (s2.data, want))]
+        return []
     if t[1] == "hidden":
         key, text = unhx(t[2]), unhx(t[3])
         if bytes(hidden(bytes(hidden(text, "pw")), "pw")) != text:
